@@ -387,6 +387,12 @@ func c10(r *engine.Report, p *engine.Program) {
 		r.Check("R5-expiry-notice", "CreateTraceroute: probes every budget 0..MaxForwardingHops() inclusive", trf.Pos(), okIncl,
 			"on the edge taken when the counter equals MaxForwardingHops() the Ping call is reached before any return", whyIncl)
 	}
+		{
+			okS, whyS, nS := packetPathStateless(p)
+			r.Check("R5-expiry-notice", "packet path: keeps no state between packets", token.NoPos, okS,
+				fmt.Sprintf("%d functions on the datagram path (send, decode, dispatch, forward, notices) write no Netceptor field and no package-level variable", nS),
+				whyS+" — whether a packet is delivered, forwarded or answered with a notice now depends on earlier packets")
+		}
 	// R5d the notice is always transmitted, and every decoded packet is dispatched
 	if su := p.Func("(*netceptor.Netceptor).sendUnreachable"); su != nil {
 		okA, whyA := noticeAlwaysSent(p, su)
